@@ -92,6 +92,11 @@ def _vm_program_check(ctx, modes, shards_quick=2, shards_thorough=8, profiles=("
             runs += sum(s_["runs"] for s_ in sums)
             for k, v in counters.items():
                 totals[k] = totals.get(k, 0) + v
+            for s_ in sums:
+                for x in s_["samples"]:
+                    if "DIFFERENT" in x:
+                        ctx.violation(f"driver {mode}: executions that must agree differ: {str(x['DIFFERENT'])[:200]}",
+                                      {"kind": "direct_comparison", "mode": mode, "case": x})
             ctx.cov.setdefault("truncated_by_phi_guard", 0)
             ctx.cov["truncated_by_phi_guard"] += sum(s_["truncated"] for s_ in sums)
     ctx.cov["evaluations"] = runs
@@ -122,7 +127,9 @@ def C05(ctx):
 
 def C07(ctx):
     """Gas is exact, bounded by the limit, never overflows."""
-    _vm_program_check(ctx, ["gas"], profiles=("dev", "release"))
+    # "resume": a machine that ran out of gas is untouched by the refused op, so exec can be called
+    # again and ends where the uninterrupted run ends (growth beyond the listed property)
+    _vm_program_check(ctx, ["gas", "resume"], profiles=("dev", "release"))
 
 
 def C09(ctx):
